@@ -741,8 +741,7 @@ IB__adapt__(PyObject* self, PyObject* obj)
     PyObject *adapter_hooks;
     PyTypeObject *specification_base_class;
     int implements;
-    int i;
-    int l;
+    Py_ssize_t i;
 
     module = _get_module(Py_TYPE(self));
 
@@ -793,9 +792,15 @@ IB__adapt__(PyObject* self, PyObject* obj)
     PyTuple_SET_ITEM(args, 1, obj);
 
     adapter_hooks = _get_adapter_hooks(Py_TYPE(self));
-    l = PyList_GET_SIZE(adapter_hooks);
-    for (i = 0; i < l; i++) {
-        adapter = PyObject_CallObject(PyList_GET_ITEM(adapter_hooks, i), args);
+    /* A hook may change the list (unregister itself or others, register
+       another one) while we walk it: go by the list as it is at each
+       step, like the ``for`` loop of the Python implementation, and own
+       the hook while it runs. */
+    for (i = 0; i < PyList_GET_SIZE(adapter_hooks); i++) {
+        PyObject* hook = PyList_GET_ITEM(adapter_hooks, i);
+        Py_INCREF(hook);
+        adapter = PyObject_CallObject(hook, args);
+        Py_DECREF(hook);
         if (adapter == NULL || adapter != Py_None) {
             Py_DECREF(args);
             return adapter;
